@@ -148,3 +148,16 @@ Proof. repeat constructor; name_ok_tac. Qed.
 
 Example ex_same_content : same_content (z_nodes (exec ex_cfg ex_h)) (z_nodes (exec ex_cfg ex_h2)).
 Proof. vm_compute. repeat constructor. Qed.
+
+(* a CNAME stored at the delegation point a.b evicts its NS rdataset: a.b is an ordinary node
+   again and the NS owner q.z.a.b it was occluding becomes the delegation point *)
+Definition ex_h3 : list txn := ex_h ++ [mkTxn false true [TReplace [la; lb] 5 [1]]].
+
+Example ex_history3_ok : history_ok ex_cfg ex_h3.
+Proof. repeat constructor; name_ok_tac. Qed.
+
+Example ex_cname_evicts_ns :
+  map (fun e => (fst e, nflags (snd e), map fst (nrds (snd e)))) (z_nodes (exec ex_cfg ex_h3)) =
+    [([], 1, [2]); ([lb], 0, [1]); ([la; lb], 0, [5]); ([lz; la; lb], 0, [1]); ([lq; lz; la; lb], 2, [2])]
+  /\ map fst (z_delegs (exec ex_cfg ex_h3)) = [[lq; lz; la; lb]].
+Proof. vm_compute. split; reflexivity. Qed.
